@@ -233,6 +233,23 @@ class AVOID_EXPORT ConnRef
         //! @returns Returns true if the connector requires repainting, or 
         //!          false if it does not.
         bool needsRepaint(void) const;
+
+#ifdef ADAPTAGRAMS_VERIF
+        // Verification hook (see verifRerouteSink in router.h): the private
+        // reroute state of this connector, read-only.
+        bool verifNeedsReroute(void) const
+        {
+            return m_needs_reroute_flag;
+        }
+        bool verifFalsePath(void) const
+        {
+            return m_false_path;
+        }
+        double verifRouteDist(void) const
+        {
+            return m_route_dist;
+        }
+#endif
         
         //! @brief   Returns a reference to the current raw "debug" route for 
         //!          the connector.
